@@ -1,5 +1,6 @@
 import SaModel.Lemmas.C04PosName
 import SaModel.Spec.Interp
+import SaModel.Lemmas.C01LeafBridge
 /-
 C04: tuples / tuple structs / arrays / tuple variants in `interp_ser`.  A tuple is traced to a Struct whose children are
 called "0", "1", …; `Spec.interpDT` matches element `k` of the serialized tuple with the field whose name has index `k`
